@@ -259,6 +259,22 @@ func buildQuery(decls string, vc *FuncVC, o *Obligation, model bool) string {
 		b.WriteString(l)
 		b.WriteByte('\n')
 	}
+	for _, l := range vc.Script {
+		if strings.HasPrefix(l, "(declare-const grp.") {
+			g := strings.TrimSuffix(strings.TrimPrefix(l, "(declare-const grp."), " Bool)")
+			on := o.Group == "" // ungrouped obligations may use every invariant
+			for _, og := range strings.Split(o.Group, "+") {
+				if og == g {
+					on = true
+				}
+			}
+			if on {
+				b.WriteString("(assert grp." + g + ")\n")
+			} else {
+				b.WriteString("(assert (not grp." + g + "))\n")
+			}
+		}
+	}
 	b.WriteString("; ---- obligation " + o.Name + " ----\n")
 	b.WriteString("(assert (not " + o.Goal + "))\n(check-sat)\n")
 	if model {
